@@ -139,7 +139,18 @@ Theorem C06_before_fix_c523023_refuted :
 Proof. exact orphans_refuted. Qed.
 Print Assumptions C06_before_fix_c523023_refuted.
 
+(* the write-back cache of the store (HyperLogLog) is flushed before the checkpoint of a snapshot is captured; without
+   that order a recorded snapshot lacks acknowledged writes and the restarted node serves a state that is not the
+   result of applying a prefix of the log (here: entry 6 alone) *)
+Theorem C06_capture_before_flush_refuted :
+  exists s, run cfg_no_flush init_state trace_capture_before_flush = Ok s
+    /\ sched_okb cfg_no_flush init_state trace_capture_before_flush = true
+    /\ acked s = 6 /\ recover_state s 0 0 = Ok [6].
+Proof. exact capture_before_flush_refuted. Qed.
+Print Assumptions C06_capture_before_flush_refuted.
+
 Example C06_fixed_code_rejects_old_orders :
   snd (run_from (cfg2 true) init_state trace_ack_before_save 0) = Some (1, R_GUARD)
-  /\ snd (run_from (cfg2 true) init_state trace_orphans 0) = Some (135, R_GUARD).
-Proof. split; [exact ack_before_save_rejected_now | exact orphans_rejected_now]. Qed.
+  /\ snd (run_from (cfg2 true) init_state trace_orphans 0) = Some (138, R_GUARD)
+  /\ snd (run_from (cfg2 true) init_state trace_capture_before_flush 0) = Some (54, R_PC).
+Proof. split; [exact ack_before_save_rejected_now | split; [exact orphans_rejected_now | exact capture_before_flush_rejected_now]]. Qed.
